@@ -27,26 +27,33 @@ Print Assumptions C06_no_crash.
 
 (* A step other than the departure of a member makes the active set smaller only by contracting: exactly one
    non-pending active member moves to idle, more than min_size healthy members were active before and at least
-   min_size (hence at least min(min_size, members)) members stay active.  A departure removes at most one. *)
+   min_size (hence at least min(min_size, members)) members stay active.  A departure removes exactly the departed member. *)
 Theorem C06_min_bound : forall c ls s l s', run c init ls = Ok s -> step c s l = Ok s' -> size s' < size s ->
-  (exists ep ch, l = LLeave ep ch /\ size s - 1 <= size s') \/
+  (exists ep, l = LLeave ep /\ In ep (eps_of (active s)) /\ size s' = size s - 1) \/
   (exists v, In v (eps_of (active s)) /\ ~ In v (pending s) /\
      active s' = remove_first v (active s) /\ idle s' = sadd v (idle s) /\ members s' = members s /\
      size s' = size s - 1 /\ min_size c < healthy s /\
      Z.min (min_size c) (Z.of_nat (length (members s'))) <= min_size c <= size s').
 Proof.
-  intros c ls s l s' _ H Hlt. destruct (step_shrink c s l s' H Hlt) as [L|(v & H1 & H2 & H3 & H4 & H5 & H6 & H7 & H8)].
-  - left. exact L.
+  intros c ls s l s' _ H Hlt. destruct (step_shrink c s l s' H Hlt) as [(ep & L1 & L2 & L3 & _)|(v & H1 & H2 & H3 & H4 & H5 & H6 & H7 & H8)].
+  - left. exists ep. auto.
   - right. exists v. repeat split; try assumption. lia.
 Qed.
 Print Assumptions C06_min_bound.
 
-(* In fact no history at all (contraction, jitter, failures, departures) leaves fewer than
-   min(min_size, members) members active. *)
+(* In fact no history at all (contraction, jitter, failures, departures) leaves fewer than min(min_size, members)
+   members active - except inside ApertureBalancerSink._RemoveSink, between the removal of a departed active member
+   and its replacement (control point [leaving]; only code called synchronously from the removed member's Close()
+   can observe it), where it is short by at most that one replacement. *)
 Theorem C06_min_invariant : forall c ls s, run c init ls = Ok s ->
-  Z.min (min_size c) (Z.of_nat (length (members s))) <= size s.
+  (leaving s = None -> Z.min (min_size c) (Z.of_nat (length (members s))) <= size s) /\
+  Z.min (min_size c) (Z.of_nat (length (members s))) <= size s + 1.
 Proof.
-  intros c ls s H. apply (run_min_inv c ls init s inv_init); [|exact H]. unfold min_inv, size. cbn. lia.
+  intros c ls s H.
+  assert (M : min_inv c s).
+  { apply (run_min_inv c ls init s inv_init); [|exact H]. unfold min_inv, size, slack. cbn. lia. }
+  unfold min_inv in M. pose proof (slack_range s). split; [|lia].
+  intros El. unfold slack in M. rewrite El in M. lia.
 Qed.
 Print Assumptions C06_min_invariant.
 
@@ -199,8 +206,17 @@ Qed.
 (* the partition theorem's hypothesis is satisfiable by a history with expansion, failure, departure, jitter, contraction *)
 Example C06_history_nonvacuous :
   exists s, run dflt init [LJoin 0; LJoin 1; LJoin 2; LJoin 3; LChan 0 2; LAdjust 1 1 0 1 None None; LAdjust 1 2 0 2 (Some 2) None;
-                           LChan 2 4; LNodeDown 2 4 (Some 1); LOpenDone 2; LLeave 0 (Some 3); LJitterStart None;
+                           LChan 2 4; LNodeDown 2 4 (Some 1); LOpenDone 2; LLeave 0; LReplace 0 (Some 3); LJitterStart None;
                            LOpenDone 1; LOpenDone 3; LChan 1 2; LChan 3 2;
-                           LAdjust (-1) 1 0 1 None (Some 2); LJoin 7; LJitterStart (Some 2); LJitterDone 2 false (Some 1)] = Ok s
+                           LAdjust (-1) 1 0 1 None (Some 2); LJoin 7; LJitterStart (Some 2); LJitterDone false (Some 1); LOpenDone 2] = Ok s
             /\ eps_of (active s) = [3; 2] /\ idle s = [7; 1].
 Proof. eexists. vm_compute. auto. Qed.
+
+(* re-entrancy: the departed member's Close() completes its in-flight request inline, so _OnPut runs between the two
+   halves of the departure (here it finds nobody active, treats the load as max_load and pulls in the idle member;
+   the second half then has nothing left to add) *)
+Example C06_reentrant_nonvacuous :
+  exists s, run dflt init [LJoin 0; LJoin 1; LAdjust 1 1 0 1 None None; LLeave 0; LAdjust (-1) 0 1 1 (Some 1) None;
+                           LReplace 0 None] = Ok s
+            /\ eps_of (active s) = [1] /\ idle s = [] /\ members s = [1] /\ leaving s = None /\ total s = 0.
+Proof. eexists. vm_compute. auto 10. Qed.
